@@ -163,6 +163,40 @@ def run(ctx):
             if isinstance(got2, str) or not np.array_equal(got2, got_py):
                 res.violations.append({"clause": "unselected series have no influence", "series": series,
                                        "series_changed": series2, "mask": mask})
+        # without an initial average the start value is taken from the SELECTED series (first selected one, or the best
+        # of a random sample of them): also then unselected series have no influence
+        if not all(mask):
+            import random as _random
+            series2 = [s if m else [rng.randint(-9, 9) for _ in s] for s, m in zip(series, mask)]
+            data2 = np.array([arr(s) for s in series2]) if kind == "matrix" else [arr(s) for s in series2]
+            first_sel = arr(series[mask.index(True)])
+            routes = [("dba(c=None)", lambda d_, uc: dtw_barycenter.dba(d_, None, mask=npmask, use_c=uc, **kw)),
+                      ("dba_loop(c=None)", lambda d_, uc: dtw_barycenter.dba_loop(d_, None, max_it=2, thr=None, mask=npmask,
+                                                                                  use_c=uc, **kw)),
+                      ("dba_loop(c=None, nb_initial_samples=2)",
+                       lambda d_, uc: dtw_barycenter.dba_loop(d_, None, max_it=1, thr=None, mask=npmask, use_c=uc,
+                                                              nb_initial_samples=2, **kw))]
+            for rname, fn_ in routes:
+                for uc in (False, True):
+                    sd = rng.randint(0, 10 ** 6)
+                    _random.seed(sd); g1 = call(lambda: fn_(data, uc))
+                    _random.seed(sd); g2 = call(lambda: fn_(data2, uc))
+                    res.hit("default_start_value")
+                    if isinstance(g1, str) and isinstance(g2, str) and (settings["window"] is not None and not equal):
+                        continue     # possibly no admissible alignment from this start under a narrow window
+                    if isinstance(g1, str) or isinstance(g2, str) or g1.shape != g2.shape or not np.array_equal(g1, g2):
+                        res.violations.append({"clause": "unselected series have no influence (no initial average given)",
+                                               "route": rname + (" C" if uc else " python"), "series": series,
+                                               "series_changed": series2, "mask": mask, "kwargs": repr(kw),
+                                               "got": g1 if isinstance(g1, str) else g1.tolist(),
+                                               "got_changed": g2 if isinstance(g2, str) else g2.tolist()})
+                        break
+            g0 = call(lambda: dtw_barycenter.dba(data, None, mask=npmask, use_c=False, **kw))
+            gf = call(lambda: dtw_barycenter.dba(data, first_sel.copy(), mask=npmask, use_c=False, **kw))
+            if not (isinstance(g0, str) and isinstance(gf, str)) and \
+                    (isinstance(g0, str) or isinstance(gf, str) or g0.shape != gf.shape or not np.array_equal(g0, gf)):
+                res.violations.append({"clause": "without an initial average the step starts from the first selected series",
+                                       "series": series, "mask": mask, "kwargs": repr(kw)})
         # identical series are a fixed point
         if k % 5 == 0:
             same = [list(series[0])] * 3
